@@ -305,6 +305,8 @@ def make_numpy(interp):
         else:
             sh = [shape]
         sh = [int(v) if isinstance(v, Fraction) and v.denominator == 1 else v for v in sh]
+        if len(sh) == 0:
+            return 0                # np.zeros(()): a 0-d array, modelled as the scalar 0.0
         if len(sh) == 1:
             return A.zeros(sh[0])
         if len(sh) == 2:
@@ -313,6 +315,26 @@ def make_numpy(interp):
                 return Sym2D([A.zeros(sh[1]) for _ in range(sh[0])], name="zeros2d")
             return SymMatrix(sh[0], sh[1], lambda r, c: 0, name="zerosM")
         raise EngineError("np.zeros with %d dims" % len(sh))
+
+    def np_shape(a):
+        if isinstance(a, Sym2D):
+            return (len(a.rows), a.rows[0].length)
+        if isinstance(a, SymArray):
+            return (a.length,)
+        if isinstance(a, (list, tuple)):
+            return (len(a),)
+        return ()
+
+    def np_divide(x, y, out=None, where=None):
+        """np.divide(x, y, out=..., where=...): elementwise x/y where the mask holds, the element of `out` elsewhere"""
+        if where is None:
+            return A.elementwise(T.div, [T.lit(x), T.lit(y)], name="divide", partial=True)
+        if out is None:
+            raise EngineError("np.divide with where= but without out= leaves elements uninitialised")
+
+        def f(a_, b_, w_, o_):
+            return A.guarded(T.tz(w_) if T.is_sym(w_) else bool(w_), lambda: T.div(a_, b_), lambda: o_)
+        return A.elementwise(f, [T.lit(x), T.lit(y), T.lit(where), T.lit(out)], name="divide", partial=True)
 
     def zeros_like(a):
         if isinstance(a, Sym2D):
@@ -451,7 +473,7 @@ def make_numpy(interp):
     linalg = I.NativeNS("numpy.linalg", {"solve": I.Builtin("linalg.solve", lambda M, b: linalg_solve(M, b))})
 
     table = {
-        "zeros": zeros, "zeros_like": zeros_like, "ones": ones, "full_like": full_like, "array": array,
+        "zeros": zeros, "shape": np_shape, "divide": np_divide, "zeros_like": zeros_like, "ones": ones, "full_like": full_like, "array": array,
         "where": where, "arange": arange, "linspace": linspace, "append": append, "repeat": repeat,
         "diag": diag, "einsum": einsum, "min": np_min, "max": np_max, "amax": np_max, "amin": np_min, "average": average, "spacing": spacing,
         "ndim": ndim, "deg2rad": deg2rad, "square": square, "vstack": vstack, "isnan": isnan, "any": np_any,
